@@ -29,6 +29,22 @@ pub fn expected(spec_: &RespSpec, arrived: &[u8], head_len: usize, limits: (usiz
 }
 
 pub fn oracle(spec_: &RespSpec, m: &Mutated, head_len: usize, case: &RespCase, out: &RespOut, line_limit: usize) -> Result<(), (String, String)> {
+    if let Reads::BufOps(ops) = &case.reads {
+        // the BufRead view: judged as the equivalent sequence of reads
+        if out.events.iter().any(|e| matches!(e, Ev::Panic)) {
+            return Err((format!("panic-{}-{}", spec_.framing_name(), m.kind), "the call panicked".into()));
+        }
+        let (ns, evs, tracked) = crate::bufview::convert(ops, &out.events)?;
+        let case2 = RespCase { reads: Reads::Sizes(ns), ..case.clone() };
+        let mut out2 = out.clone();
+        out2.events = evs;
+        return oracle_ex(spec_, m, head_len, &case2, &out2, line_limit, tracked);
+    }
+    oracle_ex(spec_, m, head_len, case, out, line_limit, true)
+}
+
+/// `judge_end`: the schedule is known to run to the end of the body (drained or failed)
+pub fn oracle_ex(spec_: &RespSpec, m: &Mutated, head_len: usize, case: &RespCase, out: &RespOut, line_limit: usize, judge_end: bool) -> Result<(), (String, String)> {
     let fr = spec_.framing_name();
     let tag = format!("{}-{}", fr, m.kind);
     if matches!(out.head, HeadOut::Panic) || out.events.iter().any(|e| matches!(e, Ev::Panic)) {
@@ -64,6 +80,7 @@ pub fn oracle(spec_: &RespSpec, m: &Mutated, head_len: usize, case: &RespCase, o
     let mut saw_err = false;
     let ns: Vec<usize> = match &case.reads {
         Reads::Sizes(ns) => ns.clone(),
+        Reads::BufOps(_) => unreachable!(),
         Reads::Drain(_) | Reads::Text(_) => vec![usize::MAX],
     };
     for (i, ev) in out.events.iter().enumerate() {
@@ -75,7 +92,7 @@ pub fn oracle(spec_: &RespSpec, m: &Mutated, head_len: usize, case: &RespCase, o
                 }
                 let is_eof_signal = match &case.reads {
                     Reads::Drain(_) | Reads::Text(_) => true,
-                    Reads::Sizes(_) => bs.is_empty() && ns[i] > 0,
+                    Reads::Sizes(_) | Reads::BufOps(_) => bs.is_empty() && ns[i] > 0,
                 };
                 if is_eof_signal && !(complete && got.len() == exp.payload.len()) {
                     return Err((format!("clean-eof-{}", tag), format!("end of body signalled (event #{}) after {} bytes although the frame is {:?} with {} payload bytes", i, got.len(), exp.end, exp.payload.len())));
@@ -83,12 +100,15 @@ pub fn oracle(spec_: &RespSpec, m: &Mutated, head_len: usize, case: &RespCase, o
             }
             Ev::Err(k) if k == "io0" => {} // Interrupted: a retry signal, not an end
             Ev::Err(_) | Ev::Blocked => saw_err = true,
-            Ev::Panic => unreachable!(),
+            Ev::Panic | Ev::Peek(_) | Ev::Consumed => unreachable!(),
         }
     }
     // what write_to() had put into the caller's sink when it failed is handed out too
     if !out.partial.is_empty() && !exp.payload.starts_with(&out.partial) {
         return Err((format!("fabricated-{}", tag), format!("write_to() wrote {} bytes that are not a prefix of the payload that arrived ({} B)", out.partial.len(), exp.payload.len())));
+    }
+    if !judge_end {
+        return Ok(());
     }
     if (!complete || err_inside) && !saw_err {
         return Err((format!("no-error-{}", tag), format!("schedule drained without any error although frame is {:?} / injected error inside the frame: {}", exp.end, err_inside)));
@@ -270,6 +290,10 @@ pub fn generate(seed: u64, tier: &str, sink: &mut Sink) {
                 let payload_len = m.arrived.len();
                 let reads = if rng.chance(1, 5) {
                     Reads::Drain(*rng.pick(&[crate::resp::DRAIN_BYTES, crate::resp::DRAIN_WRITE_TO, crate::resp::DRAIN_SPLIT]))
+                } else if rng.chance(1, 5) {
+                    // the BufRead view of the body reader (what the content decoders drive), mixed with read()
+                    let tail = crate::p_c01::pieces(&spec_, m.segs.len(), max_buf) + payload_len / 8192 + 3;
+                    Reads::BufOps(crate::bufview::gen_ops(&mut rng, payload_len.min(4000), tail).0)
                 } else {
                     let (ns, _) = read_schedule(&mut rng, payload_len.min(4000), crate::p_c01::pieces(&spec_, m.segs.len(), max_buf));
                     Reads::Sizes(ns)
@@ -284,7 +308,7 @@ pub fn generate(seed: u64, tier: &str, sink: &mut Sink) {
                         format!("mut={}", m.kind),
                         format!("at={}", region),
                         format!("seg={}", segname),
-                        format!("reads={}", if matches!(case.reads, Reads::Drain(_)) { "bytes()" } else { "sizes" }),
+                        format!("reads={}", match case.reads { Reads::Drain(_) => "bytes()", Reads::BufOps(_) => "bufview", _ => "sizes" }),
                     ],
                     op: case.op_line(),
                     impl_line: out.line(),
